@@ -228,7 +228,7 @@ def enumerate_cases(tier: str, seed: int) -> list[dict[str, Any]]:
         cases.append(c)
     for name in _x64_factories():
         cases.append({"key": f"sent:{name}@single_x64_preenabled", "src": "sentinel", "name": name, "mode": "single_x64_preenabled", "cost": 0.5})
-    for name in list(_sentinels()) + ["onnx_function_body"]:
+    for name in list(_sentinels()) + ["onnx_function_body", "close_instances_unique", "close_instances_shared", "close_instances_plain"]:
         for mode in ("single", "double", "single_x64_preenabled"):
             cases.append({"key": f"sent:{name}@{mode}", "src": "sentinel", "name": name, "mode": mode, "cost": 0.5})
     for init in (False, True):
@@ -398,6 +398,12 @@ def run_case(case: dict[str, Any], tier: str, seed: int) -> dict[str, Any]:
         if name == "onnx_function_body":
             fn_dec, fn_plain = _onnx_fn_sentinel()
             mk_export, mk_ref = (lambda: fn_dec), (lambda: fn_plain)
+        elif name.startswith("close_instances_"):
+            from vlib import fnmods
+
+            cls = {"close_instances_unique": fnmods.C09UniqueScale, "close_instances_shared": fnmods.C09Scale, "close_instances_plain": fnmods.C09PlainScale}[name]
+            fe, fr = fnmods.c09_close_instances(cls), fnmods.c09_close_instances(fnmods.C09PlainScale)
+            mk_export, mk_ref = (lambda: fe), (lambda: fr)
         elif name.startswith("x64only_"):
             import jax as _j0
 
